@@ -120,6 +120,11 @@ func (g *GRU) Apply(inputs []tensor.Tensor) ([]tensor.Tensor, error) {
 		return nil, err
 	}
 
+	nActivations := 2
+	if len(g.activations) != nActivations {
+		return nil, ops.ErrInvalidAttribute(ops.ActivationsAttr, g)
+	}
+
 	fActivation, err := ops.GetActivation(g.activations[0])
 	if err != nil {
 		return nil, err
